@@ -49,7 +49,16 @@ def playback(harness):
                         "-Z", "concrete-playback", "--concrete-playback=print"],
                        cwd=KDIR, env=ENV, capture_output=True, text=True, timeout=3600)
     out = p.stdout
-    m = re.search(r"let concrete_vals: Vec<Vec<u8>> = vec!\[(.*?)\n\s*\];", out, re.S)
+    # one test block per failed check AND per satisfied cover: take the first block that is not a cover trace
+    blocks = re.split(r"(?=/// Test generated for harness)", out)
+    pick = None
+    for b in blocks:
+        if "concrete_vals" not in b: continue
+        if re.search(r"Check for `cover`", b): continue
+        pick = b; break
+    if pick is None:
+        pick = out
+    m = re.search(r"let concrete_vals: Vec<Vec<u8>> = vec!\[(.*?)\n\s*\];", pick, re.S)
     if not m: return None, out[-3000:]
     vals = []
     for vm in re.finditer(r"vec!\[([^\]]*)\]", m.group(1)):
